@@ -1,6 +1,6 @@
 (* Model/Dispatch.v — one entry point for the harness: op code + encoded argument -> encoded
    result.  Op codes are listed in harness/ops.py.  Glue, no proofs. *)
-From VK Require Import Base Core STV Pairwise Rules PV Election BallotCtor Cleaning Metrics Loaders GenValidation PrefInterval Generators Codec.
+From VK Require Import Base Core STV Pairwise Rules PV Election Election2 BallotCtor Cleaning Metrics Loaders GenValidation PrefInterval Generators Generators2 Codec.
 
 Definition op_remove_cand (v : val) : val :=
   match v with
@@ -143,6 +143,15 @@ Fixpoint run_history (r : option rule) (p : profile) (sts : list estate) (qs : l
       | Some r' =>
           match get_profile cand ceqb r' p sts i s with
           | inl (np, s') => eProfile np :: run_history r p sts rest s'
+          | inr e => VE e :: run_history r p sts rest s
+          end
+      | None => VE EOther :: run_history r p sts rest s
+      end
+  | VL [VZ 7; VZ i] :: rest =>
+      match r with
+      | Some r' =>
+          match get_step cand ceqb r' p sts i s with
+          | inl ((np, st), s') => VL [eProfile np; eState st] :: run_history r p sts rest s'
           | inr e => VE e :: run_history r p sts rest s
           end
       | None => VE EOther :: run_history r p sts rest s
@@ -444,6 +453,38 @@ Definition op_gen_ac (v : val) : val :=
           let! r := ac_bloc nc O bc' oc' pb' po' ds in ok (bid', r)
       | _ => err EScript end) v in
     gen_finish pools).
+(* ---- Generators2: Dirichlet-table BallotSimplex (IC / IAC) and CambridgeSampler ---- *)
+Definition op_gen_alpha (v : val) : val :=
+  match v with
+  | VL [cs; tbl; n; draws] =>
+      eRes (fun x => VL [eProfile (fst x); VL (map eGcall (snd x))])
+           (let! cs' := dCands cs in let! tb := dList (dPair dCands dQ) tbl in let! n' := dNat n in
+            let! ds := dList dCands draws in
+            alpha_profile cs' tb n' ds)
+  | _ => VE EScript
+  end.
+Definition eCamcall (c : camcall) : val :=
+  match c with
+  | CamChoices tbl k => VL [VZ 8; VS (map (fun x => VL [VL (map ePos (fst x)); VQ (snd x)]) tbl); eNat k]
+  | CamPL pop k => VL [VZ 1; ePop pop; eNat k]
+  end.
+Definition op_gen_cambridge (v : val) : val :=
+  match v with
+  | VL [freqs; blocs] =>
+      eRes (fun x => match x with (by_bloc, agg, calls) =>
+              VL [VS (map (fun bp => VL [ePos (fst bp); eProfile (snd bp)]) by_bloc); eProfile agg; VL (map eCamcall calls)] end)
+        (let! fr := dList (dPair (dList dPos) dQ) freqs in
+         let! pools := dList (fun b => match b with
+            | VL [bid; iv; own; opp; so; sp; nb; nc; draws] =>
+                let! bid' := dPos bid in let! iv' := dPI iv in let! own' := dPos own in let! opp' := dPos opp in
+                let! so' := dCands so in let! sp' := dCands sp in let! nb' := dNat nb in let! nc' := dNat nc in
+                let! ds := dList (dPair (dList dPos) dCands) draws in
+                let! r := cam_bloc fr iv' own' opp' so' sp' nb' nc' ds in ok (bid', r)
+            | _ => err EScript end) blocs in
+         let! r := finish_blocs (map (fun x => (fst x, fst (snd x))) pools) in
+         ok (fst r, snd r, concat (map (fun x => snd (snd x)) pools)))
+  | _ => VE EScript
+  end.
 Definition op_gen_bt_mcmc (v : val) : val :=
   eRes eGen (let! pools := dList (fun b => match b with
       | VL [bid; iv; seed; steps] =>
@@ -512,6 +553,8 @@ Definition dispatch (op : Z) (v : val) : val :=
   | 102 => op_gen_spatial v
   | 103 => op_gen_bt_mcmc v
   | 104 => op_gen_slate_mcmc v
+  | 105 => op_gen_alpha v
+  | 106 => op_gen_cambridge v
   | 91 => op_combine_intervals v
   | 92 => op_bt_pdf v
   | 93 => op_calc_prob v
